@@ -29,6 +29,7 @@ ap.add_argument("name")
 ap.add_argument("--also", default="")
 ap.add_argument("--tier", default="quick")
 ap.add_argument("--keep-unconfirmed", action="store_true")
+ap.add_argument("--no-baseline", action="store_true", help="re-validation: reuse the recorded baseline result")
 a = ap.parse_args()
 
 sd = os.path.abspath(a.seed_dir)
@@ -56,10 +57,18 @@ try:
     if r.returncode:
         print("PATCH DOES NOT APPLY:", r.stdout[-500:])
         sys.exit(3)
-    r = run([sys.executable, os.path.join(here, "baseline.py"), wt])
-    meta["baseline_with_patch"] = r.stdout.strip().splitlines()[-1] if r.returncode == 0 else r.stdout[-800:]
-    meta["baseline_ok"] = r.returncode == 0
-    meta["ran"].append("tools/baseline.py <patched tree> -> exit %d" % r.returncode)
+    prev = os.path.join(root, "seeded", a.name, "meta.json")
+    if a.no_baseline and os.path.exists(prev) and json.load(open(prev)).get("baseline_ok"):
+        pm = json.load(open(prev))
+        meta["baseline_with_patch"] = pm.get("baseline_with_patch")
+        meta["baseline_ok"] = True
+        meta["ran"].append("tools/baseline.py <patched tree> -> passed when the seed was first validated (%s)"
+                           % pm.get("validated_at"))
+    else:
+        r = run([sys.executable, os.path.join(here, "baseline.py"), wt])
+        meta["baseline_with_patch"] = r.stdout.strip().splitlines()[-1] if r.returncode == 0 else r.stdout[-800:]
+        meta["baseline_ok"] = r.returncode == 0
+        meta["ran"].append("tools/baseline.py <patched tree> -> exit %d" % r.returncode)
     r = run(["/venv/bin/python", "-B", demo, wt], env=env, cwd=wt)
     meta["demo_exit_patched"] = r.returncode
     meta["demo_output_patched"] = r.stdout[-600:]
